@@ -482,11 +482,11 @@ func (c *C) Data(ctx context.Context, hdr textproto.Header, body io.Reader) erro
 	}
 
 	if err := textproto.WriteHeader(wc, hdr); err != nil {
-		return c.wrapClientErr(err, c.serverName)
+		return c.abortData(err)
 	}
 
 	if _, err := io.Copy(wc, body); err != nil {
-		return c.wrapClientErr(err, c.serverName)
+		return c.abortData(err)
 	}
 
 	if err := wc.Close(); err != nil {
@@ -494,6 +494,19 @@ func (c *C) Data(ctx context.Context, hdr textproto.Header, body io.Reader) erro
 	}
 
 	return nil
+}
+
+// abortData is called when the message could not be written completely after
+// the DATA command was accepted.
+//
+// The connection can't be used for anything else: the next command (even QUIT
+// sent by Close) makes net/textproto terminate the message data properly and
+// the server would accept the message cut off in the middle. Drop the
+// connection instead.
+func (c *C) abortData(err error) error {
+	serverName := c.serverName
+	c.DirectClose()
+	return c.wrapClientErr(err, serverName)
 }
 
 func (c *C) LMTPData(ctx context.Context, hdr textproto.Header, body io.Reader, statusCb func(string, *smtp.SMTPError)) error {
@@ -505,11 +518,11 @@ func (c *C) LMTPData(ctx context.Context, hdr textproto.Header, body io.Reader, 
 	}
 
 	if err := textproto.WriteHeader(wc, hdr); err != nil {
-		return c.wrapClientErr(err, c.serverName)
+		return c.abortData(err)
 	}
 
 	if _, err := io.Copy(wc, body); err != nil {
-		return c.wrapClientErr(err, c.serverName)
+		return c.abortData(err)
 	}
 
 	if err := wc.Close(); err != nil {
@@ -530,6 +543,10 @@ func (c *C) Noop() error {
 // Close sends the QUIT command, if it fails - it directly closes the
 // connection.
 func (c *C) Close() error {
+	if c.cl == nil {
+		// Already closed (see abortData).
+		return nil
+	}
 	c.cl.CommandTimeout = 5 * time.Second
 
 	if err := c.cl.Quit(); err != nil {
